@@ -175,3 +175,70 @@ def hm1(proj, rep, modules):
                 # else: undecided, silently skipped (not an obligation)
     rep.count('HM1.sites', n)
     return n
+
+
+# ------------------------------------------------------------------------------------------------ PJ1
+RULE_PJ1 = ('PJ1: a complement projector `eye(n) - A @ B` built from one family of vectors V sums outer products |v><v|: the ket factor A is V '
+            'unconjugated (V.T for row vectors, V for column vectors) and the bra factor B carries the conjugate; likewise `v[:, None] * w` needs '
+            'w = conj(v). With the conjugate on the ket factor the result is the complex conjugate of the projector: it no longer annihilates '
+            'the vectors unless their span is closed under conjugation.')
+
+
+def pj1(proj, rep, modules):
+    rep.rule('PJ1', RULE_PJ1)
+    n = 0
+    for mq in modules:
+        m = proj.mod(mq)
+        rep.touch(m)
+        for fi in [f for f in proj.funcs.values() if f.module is m]:
+            for b in ast.walk(fi.node):
+                if not (isinstance(b, ast.BinOp) and isinstance(b.op, ast.Sub) and isinstance(b.left, ast.Call) and ast.unparse(b.left.func).endswith('eye')):
+                    continue
+                r = b.right
+                if isinstance(r, ast.BinOp) and isinstance(r.op, ast.MatMult):
+                    ln, lt, lc = _base_of(r.left)
+                    rn, rt, rc = _base_of(r.right)
+                    if ln is None or ln != rn or lt == rt:
+                        continue
+                elif isinstance(r, ast.BinOp) and isinstance(r.op, ast.Mult):
+                    # v[:, None] * v.conj()
+                    def core(e):
+                        c = False
+                        nb = False
+                        cur = e
+                        for _ in range(4):
+                            if isinstance(cur, ast.Subscript):
+                                nb = nb or 'None' in ast.unparse(cur.slice) or 'newaxis' in ast.unparse(cur.slice)
+                                cur = cur.value
+                            elif isinstance(cur, ast.Call) and isinstance(cur.func, ast.Attribute) and cur.func.attr in ('conj', 'conjugate'):
+                                c = True
+                                cur = cur.func.value
+                            else:
+                                break
+                        return (cur.id if isinstance(cur, ast.Name) else None), nb, c
+                    ln, lnb, lc = core(r.left)
+                    rn, rnb, rc = core(r.right)
+                    if ln is None or ln != rn or lnb == rnb:
+                        continue
+                    if rnb:     # (conj?) row first: v.conj() * v[:,None] -> swap roles so that the broadcast COLUMN factor is the ket
+                        lc, rc = rc, lc
+                else:
+                    continue
+                st = b
+                while not isinstance(st, ast.stmt):
+                    st = st._parent
+                n += 1
+                if rc and not lc:
+                    rep.ok('PJ1', fi.qual, f'`{ast.unparse(b)[:70]}`: ket factor plain, bra factor conjugated', m, st)
+                elif lc and not rc:
+                    rep.violation('PJ1', fi.qual, f'`{ast.unparse(b)[:80]}`: the conjugate sits on the ket factor: this is the complex conjugate of the projector onto '
+                                  f'span({ln}); for complex vectors whose span is not closed under conjugation it does not annihilate them', m, st)
+                else:
+                    cx = _complexness(fi.node, ln, st, set(fi.all_params), proj, m)
+                    if cx == 'real' or (not lc and not rc and _in_real_branch(b, fi.node)):
+                        rep.ok('PJ1', fi.qual, f'`{ast.unparse(b)[:70]}`: real vectors', m, st)
+                    else:
+                        rep.undecided('PJ1', fi.qual, f'`{ast.unparse(b)[:70]}`: neither factor conjugated and {ln} not known to be real', m, st)
+                        n -= 1
+    rep.count('PJ1.sites', n)
+    return n
